@@ -23,6 +23,12 @@ theorem eqv_sound : UeqSound (UnitV.eqv (K := K)) := by
   intro a b h
   simpa [UnitV.eqv, and_assoc] using h
 
+/-- only the floor-division rule is ever swapped for another -/
+theorem effective_of_ne_floorDivide (r : Rule) (h : r ≠ .floorDivide) (b : Bool) : r.effective b = r := by
+  cases r <;> cases b <;> first | rfl | decide | exact absurd rfl h
+
+theorem effective_false (r : Rule) : r.effective false = r := by simp [Rule.effective]
+
 theorem conv_zero_offsets (pre : Prefixes K) (t : Lut K) (a b : UnitV K) (ha : a.offset = 0) (hb : b.offset = 0)
     (hd : a.dim = b.dim) : getConversionFactor pre t a b = .ok (a.scale / b.scale, none) := by
   simp [getConversionFactor, ha, hb, hd]
@@ -146,7 +152,7 @@ theorem dispatch_multiply_shape (ueq : UnitV K → UnitV K → Bool) (pre : Pref
     ∃ m unit, multiplyUnits pre t u0 u1 = .ok (m, unit) ∧ postMulBlock u0 u1 1 m unit = .ok o := by
   have hc : Rule.multiply.converts = false := by decide
   have hp : Rule.multiply.postMul = true := by decide
-  simp [dispatchBinary, binaryRule, hf, hc, hp, Except.map] at h
+  simp [dispatchBinary, binaryRule, hf, hc, hp, Except.map, effective_of_ne_floorDivide] at h
   split at h; · contradiction
   · rename_i heq
     split at heq <;> simp at heq
@@ -163,7 +169,7 @@ theorem dispatch_divide_shape (ueq : UnitV K → UnitV K → Bool) (pre : Prefix
     ∃ m unit, divideUnits pre t u0 u1 = .ok (m, unit) ∧ postMulBlock u0 u1 1 m unit = .ok o := by
   have hc : Rule.divide.converts = false := by decide
   have hp : Rule.divide.postMul = true := by decide
-  simp [dispatchBinary, binaryRule, hf, hc, hp, Except.map] at h
+  simp [dispatchBinary, binaryRule, hf, hc, hp, Except.map, effective_of_ne_floorDivide] at h
   split at h; · contradiction
   · rename_i heq
     split at heq <;> simp at heq
@@ -200,7 +206,8 @@ theorem dispatch_converting_ok_dims (ueq : UnitV K → UnitV K → Bool) (hueq :
     · exact hd
     · exfalso
       have hd' : (u0.dim != u1.dim) = true := by simpa using hd
-      simp only [dispatchBinary, hf, hnp, hc, hnc] at h
+      have hE : ∀ b, r.effective b = r := fun b => effective_of_ne_floorDivide r (by rcases hr with rfl | rfl <;> decide) b
+      simp only [dispatchBinary, hf, hnp, hE, hc, hnc] at h
       split at h
       · contradiction
       · simp [he, hd] at h
